@@ -114,6 +114,10 @@ Proof. exact (prefix_ev V). Qed.
 Theorem C17_prefix_wf : forall asgn off d, wf d -> wf (prefix V asgn off d).
 Proof. exact (prefix_wf V). Qed.
 
+(* GetPaths (compared as drift): every listed path carries the value of all assignments it covers *)
+Theorem C17_paths_sound : forall d, ordered V d -> forall p v, In (p, v) (paths V d) -> forall s, refines p s -> ev d s = v.
+Proof. exact (paths_sound V). Qed.
+
 (* gates evaluated on libvata's output *)
 Theorem C17_dc_gate_sound : forall d a v, dc_gate V V_eq_dec d a v = true -> exists s, refines a s /\ ev d s = v.
 Proof. exact (dc_gate_sound V V_eq_dec). Qed.
@@ -164,6 +168,7 @@ Print Assumptions C17_matches_refines.
 Print Assumptions C17_extend_wf.
 Print Assumptions C17_prefix_ev.
 Print Assumptions C17_prefix_wf.
+Print Assumptions C17_paths_sound.
 Print Assumptions C17_dc_gate_sound.
 Print Assumptions C17_dc_gate_model.
 Print Assumptions C17_void1_gate.
